@@ -54,7 +54,15 @@ def frag_minus1(avail, want, rng):
     return m - 1 if m > 1 else m
 
 
-FRAGS = {"whole": frag_whole, "one": frag_one, "random": frag_random, "minus1": frag_minus1}
+def frag_trickle(avail, want, rng):
+    """packet headers (24-byte requests) in one piece, payloads in many small fragments (a quarter of what is still missing each time)"""
+    m = min(avail, want)
+    if want == 24 or m <= 1:
+        return m
+    return max(1, m // 4)
+
+
+FRAGS = {"whole": frag_whole, "one": frag_one, "random": frag_random, "minus1": frag_minus1, "trickle": frag_trickle}
 
 
 class Core(object):
